@@ -346,3 +346,51 @@ package types
 //@   loop 0 invariant talliedVotingPower == tally($i)
 //@   loop 0 invariant forall(j, 0, $i, commit.Precommits[j] != nil ==> commit.Precommits[j].Height == height && commit.Precommits[j].Type == VoteTypePrecommit \
 //@              && sigOK(pubKeyAt(valSet, j), voteSB(chainID, commit.Precommits[j]), commit.Precommits[j].Signature))
+
+// ---------------------------------------------------------------------------------------------
+// signer (C03). Ghost durable record dur* = what the signer file holds (decoded); `save` moves memory to it.
+
+//@ ghost durH Int
+//@ ghost durR Int
+//@ ghost durS Int
+//@ ghost durBytes Bytes
+//@ ghost durSig Iface
+
+//@ define hrsLess(h1 Int, r1 Int, s1 Int, h2 Int, r2 Int, s2 Int) Bool = h1 < h2 || (h1 == h2 && (r1 < r2 || (r1 == r2 && s1 < s2)))
+//@ define hrsEq(h1 Int, r1 Int, s1 Int, h2 Int, r2 Int, s2 Int) Bool = h1 == h2 && r1 == r2 && s1 == s2
+// memory and the durable record agree on what was last signed
+//@ pred signerInv(pv *PrivValidator) = hrsEq(pv.LastHeight, pv.LastRound, pv.LastStep, durH, durR, durS) \
+//@      && bytesEq(pv.LastSignBytes, durBytes) && (pv.LastSignBytes == nil) == (durBytes == nil) && pv.LastSignature == durSig
+
+//@ func (*PrivValidator).save
+//@   props C03
+//@   requires privVal != nil
+//@   assigns  fs, durH, durR, durS, durBytes, durSig
+//@   ensures  [file-holds-record] result == nil ==> fs[privVal.filePath] == jsonOf(box(privVal))
+//@   ensures  [file-untouched-on-error] result != nil ==> fs[privVal.filePath] == old(fs)[privVal.filePath]
+//@   trusted-ensures result == nil ==> durH == privVal.LastHeight && durR == privVal.LastRound && durS == privVal.LastStep && durBytes == privVal.LastSignBytes && durSig == privVal.LastSignature
+//@   trusted-ensures result != nil ==> durH == old(durH) && durR == old(durR) && durS == old(durS) && durBytes == old(durBytes) && durSig == old(durSig)
+
+//@ func voteToStep
+//@   props C03
+//@   requires vote != nil
+//@   pure
+//@   aborts when vote.Type != VoteTypePrevote && vote.Type != VoteTypePrecommit
+//@   ensures (vote.Type == VoteTypePrevote ==> result == 2) && (vote.Type == VoteTypePrecommit ==> result == 3)
+
+//@ func (*PrivValidator).signBytesHRS
+//@   props C03 C01
+//@   requires privVal != nil && signerInv(privVal)
+//@   assigns  privVal.LastHeight, privVal.LastRound, privVal.LastStep, privVal.LastSignature, privVal.LastSignBytes, fs, durH, durR, durS, durBytes, durSig
+//@   aborts when old(privVal.LastHeight) == height && old(privVal.LastRound) == round && old(privVal.LastStep) == step && old(privVal.LastSignBytes) != nil && old(privVal.LastSignature) == nil
+//@   ensures  [no-regression] result1 == nil ==> hrsLess(old(privVal.LastHeight), old(privVal.LastRound), old(privVal.LastStep), height, round, step) \
+//@              || (hrsEq(old(privVal.LastHeight), old(privVal.LastRound), old(privVal.LastStep), height, round, step) && old(privVal.LastSignBytes) != nil && bytesEq(old(privVal.LastSignBytes), signBytes) && result0 == old(privVal.LastSignature))
+//@   ensures  [nothing-released-on-error] result1 != nil ==> result0 == nil
+//@   ensures  [durable-unchanged-on-error] result1 != nil ==> durH == old(durH) && durR == old(durR) && durS == old(durS) && durBytes == old(durBytes) && durSig == old(durSig)
+//@   ensures  [durable-before-release] result1 == nil ==> hrsEq(durH, durR, durS, height, round, step) && bytesEq(durBytes, signBytes) && durSig == result0
+//@   ensures  [durable-monotone] !hrsLess(durH, durR, durS, old(durH), old(durR), old(durS))
+//@   ensures  [memory-monotone] !hrsLess(privVal.LastHeight, privVal.LastRound, privVal.LastStep, old(privVal.LastHeight), old(privVal.LastRound), old(privVal.LastStep))
+//@   ensures  signerInv(privVal)
+
+//@ lemma restartSafe: forall(h, Int, forall(r, Int, forall(s, Int, !hrsLess(h, r, s, h, r, s))))
+//@   props C03
